@@ -577,13 +577,8 @@ def recorded_length_is_file_length(ctx, s):
     news = [(b, i) for b, i in an.calls() if b in sites]
     for b, info in news:
         v = info["args"][0]
-        vals = [v]
-        if v[0] == "phi":
-            vals = []
-            for e in an.cfg.in_edges[v[1]]:
-                st = an.out_state.get(e.src)
-                if st is not None:
-                    vals.append(an.read(st, v[2]))
+        from ..srules import leaf_values
+        vals = leaf_values(an, v) or [v]
         real = any(contains_value(x, lambda y: y[0] == "call" and y[1].rsplit("::", 1)[-1] == "len" and "fs" in y[1]) for x in vals)
         s.add("S-REL", fn, "recorded-length-is-file-length", "event_map_file_len", info["sp"], PROVED if real else VIOLATION,
               "for an existing file the recorded length is metadata().len()" if real else
